@@ -552,6 +552,14 @@ def run(rep):
               f"column added: {addcol}, row added: {addrow}", line=cmf.lineno)
     rep.check(rcol and rrow, "R04.d", rel, "confusion_matrix", "padded table re-ordered along both axes (categories ascending)",
               f"columns re-ordered: {rcol}, rows re-ordered: {rrow}", line=cmf.lineno)
+    # a score may be asked for a perfect simulation given as the observation array itself, and several scores are computed from the same
+    # arrays: the score functions may not write into buffers that can be the caller's (alias / effect analysis decided for C18)
+    from ..core import borrow
+    SCORES = ("bias", "nse", "kge", "corr", "confusion_matrix", "binary", "__nonulldata", "__check_ensemble_data")
+    nb_ = borrow(rep, "C18", "R04.g", "the score functions do not write in place into arrays that may be their arguments (perfect simulation passed as the same array; "
+                 "a second score on the same data): clauses decided for C18",
+                 lambda e: e.rule == "R18.a" and (e.file or "").endswith("metrics.py") and (e.func or "").split(".")[-1] in SCORES)
+    rep.floor("argument-preservation clauses taken over from C18", nb_, 4)
     return EXPLANATION
 
 
